@@ -1,6 +1,6 @@
 (* Correspondence checkers for the wire formats (C18; reused by C11): every checker runs the model on
    the case's input and compares with what the Go code did.  Codes: 0 ok, 1 error, 2 panic. *)
-From Hop Require Export Base WireBase WireCert WireMsg WireFrame.
+From Hop Require Export Base WireBase WireCert WireMsg WireFrame CorrBytes.
 Open Scope N_scope.
 
 (* compact literal for long inputs: n bytes start, start+delta, ... (mod 256) *)
